@@ -678,6 +678,5 @@ func main() {
 	lengthSweep(r.Fork(), lens, sum)
 	edgeStream(r.Fork(), sum)
 	jsonOptStream(r.Fork(), *big, sum)
-	scratchStream(r.Fork(), sum)
 	sum.Print()
 }
